@@ -323,6 +323,9 @@ def gen_reduction(full, arg=False, dtype="float64", kind="distinct", maxnd=2):
                 variants = [(False, None), (True, None), (False, 2), (False, 3)]
                 if full is True and tier == "thorough":
                     variants += [(True, 2), (False, 4)]
+                if full is True and nd >= 2 and (axis is None or isinstance(axis, list)):
+                    # split_every given per axis (list of [axis, fan-in] pairs -> dict), naming only some of the reduced axes
+                    variants += [(False, [[0, 2]]), (False, [[nd - 1, 3]]), (True, [[-1, 2]])]
                 for keepdims, se in variants:
                     if any(n == 0 for n in shape) and arg:
                         continue
@@ -335,7 +338,8 @@ def _red_build(name, ns_cubed=False):
         m = cb() if name.startswith("nan") else xp()
         kw = dict(axis=_t(p["axis"]), keepdims=p["keepdims"])
         if p.get("split_every") is not None:
-            kw["split_every"] = p["split_every"]
+            se = p["split_every"]
+            kw["split_every"] = {int(k): int(v) for k, v in se} if isinstance(se, list) else se
         return getattr(m, name)(xs[0], **kw)
     return build
 
@@ -1011,6 +1015,47 @@ def gen_tri(tier):
 reg("tri", gen_tri, lambda xs, p: getattr(xp(), p["fn"])(xs[0], k=p["k"]), lambda ns, p: getattr(np, p["fn"])(ns[0], k=p["k"]), group="creation")
 reg("astype", lambda tier: (([inp(s, c, d1)], dict(dtype=d2)) for s, c in FIXED_GEOMS[2:8] for d1 in ("float64", "int32", "bool", "uint8") for d2 in ("float32", "int64", "bool", "complex128", "uint16")),
     lambda xs, p: xp().astype(xs[0], np.dtype(p["dtype"])), lambda ns, p: ns[0].astype(p["dtype"]), group="creation")
+
+
+# asarray with an explicit dtype over every kind of source (cubed array, NumPy array, nested list, scalar)
+ASARRAY_VALUES = {"float64": [1.5, -2.5, 3.25, 0.0, 7.75, -0.5], "int32": [3, -2, 0, 7, 100, -9], "bool": [True, False, True, True, False, False]}
+
+
+def gen_asarray_dtype(tier):
+    for src in ("array", "numpy", "list", "scalar"):
+        for d1 in ("float64", "int32", "bool"):
+            for d2 in (None, "float64", "float32", "int32", "int64", "bool"):
+                for shape, chunks in (((6,), (4,)), ((2, 3), (1, 2))):
+                    if src == "scalar" and shape != (6,):
+                        continue
+                    yield [], dict(src=src, d1=d1, dtype=d2, shape=list(shape), chunks=list(chunks), fn=src)
+
+
+def _asarray_np(p):
+    v = np.asarray(ASARRAY_VALUES[p["d1"]], dtype=p["d1"]).reshape(_t(p["shape"]))
+    return v[(0,) * (v.ndim - 1) + (0,)] if p["src"] == "scalar" else v
+
+
+def _asarray_build(xs, p, spec=None):
+    m = xp()
+    v = _asarray_np(p)
+    kw = {} if p["dtype"] is None else dict(dtype=np.dtype(p["dtype"]))
+    if p["src"] == "array":
+        return m.asarray(m.asarray(v, chunks=_t(p["chunks"]), spec=spec), **kw)
+    if p["src"] == "numpy":
+        return m.asarray(v, chunks=_t(p["chunks"]), spec=spec, **kw)
+    if p["src"] == "list":
+        return m.asarray(v.tolist(), chunks=_t(p["chunks"]), spec=spec, **kw)
+    return m.asarray(v.item(), spec=spec, **kw)
+
+
+def _asarray_ref(ns, p):
+    v = _asarray_np(p)
+    return np.asarray(v if p["dtype"] is None else v.astype(p["dtype"]))
+
+
+reg("asarray_dtype", gen_asarray_dtype, _asarray_build, _asarray_ref, group="creation")
+OPS["asarray_dtype"].needs_spec = True
 
 
 # ----------------------------------------------------------------- top level
